@@ -1047,6 +1047,21 @@ def gen_routine(draw, env):
         inner.defined.add(rec[1])
         body = [base] + body + [rec]
         info['recursive'] = True
+    if function and env.prof['light_loops'] and env.prof[
+            'allow_return_in_loop'] and rint(draw, 0, 3) == 0:
+        # return from a loop nested in a light-iteration loop: the names still
+        # to be visited must not leak into the caller's expression
+        light_var = pick(draw, LIGHT_VARS)
+        guard = bool_expr(draw, inner, 1)
+        value = num_expr(draw, inner, 1)
+        inner_loop = ['repeat', ['count', ['num', str(rint(draw, 1, 3))]],
+                      [['if', guard, [['return', value]], None]]]
+        source = pick(draw, ['all', 'list'])
+        spec = ['all', light_var, None] if source == 'all' else [
+            'list', [['group', set_name(draw, env, 'group')],
+                     ['light', light_name(draw, inner)]], light_var, None]
+        body.append(['repeat', spec, [inner_loop]])
+        inner.assigned.add(light_var)
     if function:
         body.append(['return', num_expr(draw, inner, 2)])
     info['assigns'] = {n for n in inner.assigned if n not in params}
